@@ -1,1 +1,393 @@
-/-! C05 — property theorems (stub: nothing proved yet). -/
+import B6.Model.SpatialPred
+import B6.Spec.SpatialPred
+/-!
+# C05 — Spatial predicates agree with exact geometry (decision logic)
+
+Model: `B6.Model.SpatialPred` — the control flow of the `Matches` functions of spatial.go on a table of S2
+primitive values.  The theorems say: for EVERY table (any number of cells, polygons, loops, edges, vertices)
+the decision equals the geometric statement it stands for, phrased with ∃ over the table:
+
+* `cells_spec`                   a cell query matches iff some query cell touches some part of the feature;
+* `point_spec`, `polyline_spec`  (polyline vs polygon is the documented vertex approximation);
+* `multipolygon_point_spec`      = ∃ polygon of the multipolygon containing the point   (repaired code);
+  `multipolygon_point_counterexample`, `multipolygon_point_partial`   the code as found lets the first polygon decide;
+* `multipolygon_path_spec`, `multipolygon_area_spec`;
+* `cap_polygon_spec`             repaired `CapIntersectsPolygon` = centre inside ∨ some edge within the radius;
+  `cap_polygon_parity_spec`      the parity formulation of the code as found equals it exactly under the
+                                 loop contract "centre inside polygon ⇔ odd number of loops have the centre on the
+                                 left of all their edges" (true for convex loops only);
+  `cap_polygon_parity_counterexample`  an L-shaped loop with the cap deep inside: parity says false;
+* `cap_area_spec`                `IntersectsCap.Matches` on areas incl. the interior/exterior covering shortcut,
+                                 under the covering contract (interior cell hit ⇒ intersects ⇒ exterior cell hit);
+  `cap_never_panics`, `cap_empty_polygon_counterexample`   `p.Loop(0)` on a polygon without loops;
+* `intersects_feature_spec`.
+
+All S2 numerics are outside: the tables are evaluated by S2 itself in the correspondence run.
+-/
+namespace B6.Props.C05
+open B6.Model.SpatialPred
+
+theorem anyTrue_iff (bs : List Bool) : anyTrue bs = true ↔ ∃ b ∈ bs, b = true := by
+  simp [anyTrue]
+
+/-! ### cells -/
+
+/-- what a cell query is meant to accept: some query cell touches some part of the feature -/
+def CellsTable.Touches : CellsTable → Prop
+  | .point hits => ∃ h ∈ hits, h = true
+  | .path hits => ∃ h ∈ hits, h = true
+  | .area hits => ∃ row ∈ hits, ∃ h ∈ row, h = true
+  | .other => False
+
+theorem cells_spec (t : CellsTable) : cellsIntersectFeature t = true ↔ CellsTable.Touches t := by
+  cases t <;> simp [cellsIntersectFeature, CellsTable.Touches, anyTrue]
+
+example : cellsIntersectFeature (.area [[false, false], [false, true]]) = true :=
+  (cells_spec _).mpr ⟨[false, true], by simp, true, by simp, rfl⟩
+
+/-! ### point and polyline queries -/
+
+def PointTable.Meets : PointTable → Prop
+  | .point eq => eq = true
+  | .path within => within = true
+  | .area cs => ∃ c ∈ cs, c = true
+  | .other => False
+
+theorem point_spec (t : PointTable) : pointIntersectsFeature t = true ↔ PointTable.Meets t := by
+  cases t <;> simp [pointIntersectsFeature, PointTable.Meets, anyTrue]
+
+example : pointIntersectsFeature (.area [false, true]) = true := (point_spec _).mpr ⟨true, by simp, rfl⟩
+
+/-- the documented approximation: a polyline meets a polygon when one of its vertices is inside -/
+def LineTable.Meets : LineTable → Prop
+  | .point within => within = true
+  | .path crosses => crosses = true
+  | .area vs => ∃ row ∈ vs, ∃ v ∈ row, v = true
+  | .other => False
+
+theorem polyline_spec (t : LineTable) : polylineIntersectsFeature t = true ↔ LineTable.Meets t := by
+  cases t <;> simp [polylineIntersectsFeature, polylineIntersectsPolygon, LineTable.Meets, anyTrue]
+
+example : polylineIntersectsFeature (.area [[false], [false, true, false]]) = true :=
+  (polyline_spec _).mpr ⟨[false, true, false], by simp, true, by simp, rfl⟩
+
+/-! ### multipolygon queries -/
+
+/-- A point is matched by a multipolygon query iff SOME polygon contains it (repaired code). -/
+theorem multipolygon_point_spec (contains : List Bool) :
+    multiPolygonIntersectsFeature true (.point contains) = true ↔ ∃ c ∈ contains, c = true := by
+  simp [multiPolygonIntersectsFeature, multiPolygonContainsPoint, anyTrue]
+
+example : multiPolygonIntersectsFeature true (.point [false, true]) = true :=
+  (multipolygon_point_spec _).mpr ⟨true, by simp, rfl⟩
+
+def multipolygon_point_statement (fixed : Bool) : Prop :=
+  ∀ contains : List Bool,
+    multiPolygonIntersectsFeature fixed (.point contains) = true ↔ ∃ c ∈ contains, c = true
+
+theorem multipolygon_point_repaired : multipolygon_point_statement true := multipolygon_point_spec
+
+/-- Code as found: two squares, the point inside the second → `Matches` = false. -/
+theorem multipolygon_point_counterexample :
+    multiPolygonIntersectsFeature false (.point [false, true]) = false ∧ (∃ c ∈ [false, true], c = true) := by
+  decide
+
+theorem multipolygon_point_as_found_fails : ¬ multipolygon_point_statement false := by
+  intro h
+  have := (h [false, true]).mpr ⟨true, by simp, rfl⟩
+  revert this
+  decide
+
+/-- Code as found is right exactly when the first polygon decides: at most one polygon, or the first
+contains the point, or none does. -/
+theorem multipolygon_point_partial (contains : List Bool)
+    (h : contains.length ≤ 1 ∨ contains.head? = some true ∨ ∀ c ∈ contains, c = false) :
+    multiPolygonIntersectsFeature false (.point contains) = true ↔ ∃ c ∈ contains, c = true := by
+  cases contains with
+  | nil => simp [multiPolygonIntersectsFeature, multiPolygonContainsPoint]
+  | cons c cs =>
+    simp only [multiPolygonIntersectsFeature, multiPolygonContainsPoint]
+    rcases h with h | h | h
+    · have : cs = [] := by
+        cases cs with
+        | nil => rfl
+        | cons _ _ => simp at h
+      subst this; simp
+    · simp at h; subst h; simp
+    · have hc := h c (by simp)
+      subst hc
+      constructor
+      · intro e; cases e
+      · rintro ⟨d, hd, rfl⟩
+        have := h true hd
+        cases this
+
+example : multiPolygonIntersectsFeature false (.point [true, false]) = true :=
+  (multipolygon_point_partial _ (Or.inr (Or.inl rfl))).mpr ⟨true, by simp, rfl⟩
+
+/-- path vs multipolygon: the documented vertex approximation, over all polygons -/
+theorem multipolygon_path_spec (fixed : Bool) (vertexIn : List (List Bool)) :
+    multiPolygonIntersectsFeature fixed (.path vertexIn) = true ↔ ∃ row ∈ vertexIn, ∃ v ∈ row, v = true := by
+  simp [multiPolygonIntersectsFeature, polylineIntersectsPolygon, anyTrue]
+
+example : multiPolygonIntersectsFeature false (.path [[false, false], [true]]) = true :=
+  (multipolygon_path_spec _ _).mpr ⟨[true], by simp, true, by simp, rfl⟩
+
+theorem multipolygon_area_spec (fixed : Bool) (meets : List (List Bool)) :
+    multiPolygonIntersectsFeature fixed (.area meets) = true ↔ ∃ row ∈ meets, ∃ m ∈ row, m = true := by
+  simp [multiPolygonIntersectsFeature, anyTrue]
+
+example : multiPolygonIntersectsFeature true (.area [[false], [false, true]]) = true :=
+  (multipolygon_area_spec _ _).mpr ⟨[false, true], by simp, true, by simp, rfl⟩
+
+/-! ### caps -/
+
+/-- exact geometry for a cap and a polygon: the centre is inside, or the boundary comes within the radius -/
+def CapMeets (t : CapPoly) : Prop :=
+  t.centreIn = true ∨ ∃ l ∈ t.loops, ∃ e ∈ l, e.within = true
+
+instance (t : CapPoly) : Decidable (CapMeets t) := by unfold CapMeets; exact inferInstance
+
+theorem cap_polygon_spec (t : CapPoly) : capIntersectsPolygon true t = true ↔ CapMeets t := by
+  simp [capIntersectsPolygon, capIntersectsPolygonFixed, CapMeets]
+
+example : capIntersectsPolygon true ⟨4, [], [], true, [[⟨false, true⟩, ⟨false, false⟩]]⟩ = true :=
+  (cap_polygon_spec _).mpr (Or.inl rfl)
+
+def someEdgeWithin (loops : List (List EdgeRow)) : Bool := loops.any fun l => l.any (·.within)
+def leftOfAll (loops : List (List EdgeRow)) : Nat := (loops.filter fun l => l.all (·.left)).length
+
+theorem parity_go (loops : List (List EdgeRow)) (n : Nat) :
+    capIntersectsPolygonParity.go loops n =
+      (someEdgeWithin loops || ((n + leftOfAll loops) % 2 == 1)) := by
+  induction loops generalizing n with
+  | nil => simp [capIntersectsPolygonParity.go, someEdgeWithin, leftOfAll]
+  | cons l ls ih =>
+    unfold capIntersectsPolygonParity.go
+    by_cases hw : l.any (·.within) = true
+    · simp [hw, someEdgeWithin]
+    · have hw' : l.any (·.within) = false := by simpa using hw
+      by_cases hl : l.all (·.left) = true
+      · rw [if_neg hw, if_pos hl, ih]
+        simp only [someEdgeWithin, leftOfAll, List.any_cons, hw', Bool.false_or, List.filter_cons, hl,
+          ↓reduceIte, List.length_cons]
+        congr 3
+        omega
+      · rw [if_neg hw, if_neg hl, ih]
+        simp only [someEdgeWithin, leftOfAll, List.any_cons, hw', Bool.false_or, List.filter_cons, hl]
+        rfl
+
+/-- The parity formulation of the code as found is exact under the loop contract: whenever no edge is
+within the radius, "centre inside the polygon" ⇔ "the centre is to the left of every edge of an odd number
+of loops".  (S2 polygons are XOR of nested CCW loops, so this holds when every loop is convex.) -/
+theorem cap_polygon_parity_spec (t : CapPoly)
+    (contract : someEdgeWithin t.loops = false → (t.centreIn = (leftOfAll t.loops % 2 == 1))) :
+    capIntersectsPolygon false t = true ↔ CapMeets t := by
+  rw [← cap_polygon_spec]
+  simp only [capIntersectsPolygon, capIntersectsPolygonParity, parity_go, Nat.zero_add, Bool.false_eq_true,
+    ↓reduceIte, capIntersectsPolygonFixed]
+  cases hs : someEdgeWithin t.loops with
+  | true =>
+    have : (t.loops.any fun l => l.any (·.within)) = true := hs
+    simp [this]
+  | false =>
+    have h2 : (t.loops.any fun l => l.any (·.within)) = false := hs
+    rw [contract hs, h2]
+    simp
+
+example : capIntersectsPolygon false ⟨4, [], [], true, [[⟨false, true⟩, ⟨false, true⟩, ⟨false, true⟩]]⟩ = true :=
+  (cap_polygon_parity_spec _ (by decide)).mpr (Or.inl rfl)
+
+/-- Code as found on an L-shaped (non-convex) loop with a small cap deep inside one arm: no edge within the
+radius, the centre is on the right of the re-entrant edge, so the loop is not counted: false, though the
+centre is inside the polygon. -/
+theorem cap_polygon_parity_counterexample :
+    let t : CapPoly := ⟨6, [], [], true,
+      [[⟨false, true⟩, ⟨false, true⟩, ⟨false, false⟩, ⟨false, true⟩, ⟨false, true⟩, ⟨false, true⟩]]⟩
+    capIntersectsPolygon false t = false ∧ CapMeets t ∧ capIntersectsPolygon true t = true := by
+  decide
+
+/-- covering contract for the shortcut of `IntersectsPolygon`: a hit on a cell of the cap's interior covering
+means the polygon meets the cap; if it meets the cap it hits a cell of the exterior covering -/
+def CoveringContract (t : CapPoly) : Prop :=
+  (anyTrue t.interior = true → CapMeets t) ∧ (CapMeets t → anyTrue t.exterior = true)
+
+theorem intersects_polygon_spec (t : CapPoly) (h : CoveringContract t) :
+    intersectsPolygon true t = some (decide (CapMeets t)) := by
+  have hspec : capIntersectsPolygon true t = decide (CapMeets t) := by
+    rw [Bool.eq_iff_iff, cap_polygon_spec]; simp
+  unfold intersectsPolygon
+  simp only [Bool.not_true, Bool.and_false, Bool.false_eq_true, ↓reduceIte]
+  by_cases hbig : (!t.loops.isEmpty && decide (t.nv0 > indexUseFasterAboveVertexCount)) = true
+  · rw [if_pos hbig]
+    by_cases hi : anyTrue t.interior = true
+    · rw [if_pos hi]
+      have := h.1 hi
+      simp [this]
+    · rw [if_neg hi]
+      by_cases he : anyTrue t.exterior = true
+      · simp [he, hspec]
+      · have hn : ¬ CapMeets t := fun m => he (h.2 m)
+        have he' : anyTrue t.exterior = false := by simpa using he
+        simp [he', hn]
+  · rw [if_neg hbig, hspec]
+
+/-- `IntersectsCap.Matches` on an area (repaired code): some polygon of the area meets the cap. -/
+theorem cap_area_spec (ps : List CapPoly) (h : ∀ p ∈ ps, CoveringContract p) :
+    capMatches true (.area ps) = some (ps.any fun p => decide (CapMeets p)) := by
+  simp only [capMatches]
+  induction ps with
+  | nil => rfl
+  | cons p ps ih =>
+    have hp := intersects_polygon_spec p (h p (by simp))
+    have ih' := ih (fun q hq => h q (by simp [hq]))
+    unfold anyPolygon
+    rw [hp]
+    by_cases hm : CapMeets p
+    · simp [hm]
+    · simp [hm, ih']
+
+example : capMatches true (.area [⟨20, [false], [false, false], false, [[⟨false, true⟩]]⟩,
+                                  ⟨4, [], [true], false, [[⟨false, false⟩, ⟨true, false⟩]]⟩]) = some true := by
+  decide
+
+/-- the repaired code never panics, whatever the table -/
+theorem cap_never_panics (t : CapTable) : capMatches true t ≠ none := by
+  cases t with
+  | point b => simp [capMatches]
+  | path b => simp [capMatches]
+  | other => simp [capMatches]
+  | area ps =>
+    simp only [capMatches]
+    induction ps with
+    | nil => simp [anyPolygon]
+    | cons p ps ih =>
+      unfold anyPolygon
+      have : ∃ b, intersectsPolygon true p = some b := by
+        unfold intersectsPolygon
+        simp only [Bool.not_true, Bool.and_false, Bool.false_eq_true, ↓reduceIte]
+        split
+        · split
+          · exact ⟨_, rfl⟩
+          · split <;> exact ⟨_, rfl⟩
+        · exact ⟨_, rfl⟩
+      obtain ⟨b, hb⟩ := this
+      rw [hb]
+      cases b <;> simp [ih]
+
+/-- Code as found: an area with a polygon that has no loops (e.g. `InvalidArea.Polygon`) panics in `p.Loop(0)`. -/
+theorem cap_empty_polygon_counterexample :
+    capMatches false (.area [⟨0, [], [], false, []⟩]) = none ∧
+    capMatches true (.area [⟨0, [], [], false, []⟩]) = some false := by
+  decide
+
+theorem cap_point_path_spec (fixed b : Bool) :
+    capMatches fixed (.point b) = some b ∧ capMatches fixed (.path b) = some b := ⟨rfl, rfl⟩
+
+/-! ### intersects-feature -/
+
+def GeoMeets : GeoQuery → Prop
+  | .point t => PointTable.Meets t
+  | .line t => LineTable.Meets t
+  | .mp (.point cs) => ∃ c ∈ cs, c = true
+  | .mp (.path vs) => ∃ row ∈ vs, ∃ v ∈ row, v = true
+  | .mp (.area ms) => ∃ row ∈ ms, ∃ m ∈ row, m = true
+  | .mp .other => False
+  | .empty => False
+
+/-- `IntersectsFeature.Matches` (repaired): the feature is the named one, or it meets the named feature's geometry. -/
+theorem intersects_feature_spec (sameID : Bool) (q : GeoQuery) :
+    intersectsFeatureMatches true sameID q = true ↔ sameID = true ∨ GeoMeets q := by
+  simp only [intersectsFeatureMatches, Bool.or_eq_true]
+  apply or_congr Iff.rfl
+  cases q with
+  | point t => exact point_spec t
+  | line t => exact polyline_spec t
+  | empty => simp [geoMatches, GeoMeets]
+  | mp t =>
+    cases t with
+    | point cs => exact multipolygon_point_spec cs
+    | path vs => exact multipolygon_path_spec true vs
+    | area ms => exact multipolygon_area_spec true ms
+    | other => simp [geoMatches, multiPolygonIntersectsFeature, GeoMeets]
+
+example : intersectsFeatureMatches true false (.mp (.point [false, true])) = true :=
+  (intersects_feature_spec _ _).mpr (Or.inr ⟨true, by simp, rfl⟩)
+
+end B6.Props.C05
+
+/-! ### the executable spec used by the driver (`B6.Spec.SpatialPred`) equals the repaired model -/
+namespace B6.Props.C05
+open B6.Model.SpatialPred
+open B6.Spec.SpatialPred (someTrue someTrue2)
+
+theorem someTrue_eq (bs : List Bool) : someTrue bs = anyTrue bs := by
+  induction bs with
+  | nil => rfl
+  | cons b bs ih =>
+    simp only [someTrue, anyTrue, List.contains_cons, List.any_cons] at *
+    rw [ih]; cases b <;> simp
+
+theorem someTrue2_eq (rows : List (List Bool)) : someTrue2 rows = rows.any anyTrue := by
+  induction rows with
+  | nil => rfl
+  | cons r rs ih =>
+    simp only [someTrue2, List.flatten_cons, List.any_cons] at *
+    rw [← ih, ← someTrue_eq]
+    simp [someTrue, List.contains_eq_mem, List.mem_append, Bool.decide_or]
+
+theorem cells_eq_spec (t : CellsTable) : cellsIntersectFeature t = B6.Spec.SpatialPred.cells t := by
+  cases t <;> simp [cellsIntersectFeature, B6.Spec.SpatialPred.cells, someTrue_eq, someTrue2_eq]
+
+theorem point_eq_spec (t : PointTable) : pointIntersectsFeature t = B6.Spec.SpatialPred.point t := by
+  cases t <;> simp [pointIntersectsFeature, B6.Spec.SpatialPred.point, someTrue_eq]
+
+theorem polyline_eq_spec (t : LineTable) : polylineIntersectsFeature t = B6.Spec.SpatialPred.line t := by
+  cases t <;> simp [polylineIntersectsFeature, B6.Spec.SpatialPred.line, someTrue2_eq]
+  rfl
+
+theorem multipolygon_eq_spec (t : MpTable) :
+    multiPolygonIntersectsFeature true t = B6.Spec.SpatialPred.mp t := by
+  cases t <;> simp [multiPolygonIntersectsFeature, multiPolygonContainsPoint, B6.Spec.SpatialPred.mp,
+    someTrue_eq, someTrue2_eq]
+  rfl
+
+theorem capPoly_spec_iff (t : CapPoly) : B6.Spec.SpatialPred.capPoly t = true ↔ CapMeets t := by
+  simp [B6.Spec.SpatialPred.capPoly, CapMeets, someTrue, List.contains_eq_mem]
+  constructor
+  · rintro (h | ⟨l, ⟨a, ha, rfl⟩, hm⟩)
+    · exact Or.inl h
+    · obtain ⟨e, he, hw⟩ := List.mem_map.mp hm
+      exact Or.inr ⟨a, ha, e, he, hw⟩
+  · rintro (h | ⟨l, hl, e, he, hw⟩)
+    · exact Or.inl h
+    · exact Or.inr ⟨l.map (·.within), ⟨l, hl, rfl⟩, List.mem_map.mpr ⟨e, he, hw⟩⟩
+
+/-- `IntersectsCap.Matches` (repaired) equals the executable spec under the covering contract -/
+theorem cap_eq_spec (t : CapTable)
+    (h : ∀ ps, t = .area ps → ∀ p ∈ ps, CoveringContract p) :
+    capMatches true t = some (B6.Spec.SpatialPred.cap t) := by
+  cases t with
+  | point b => rfl
+  | path b => rfl
+  | other => rfl
+  | area ps =>
+    rw [cap_area_spec ps (h ps rfl)]
+    simp only [B6.Spec.SpatialPred.cap, someTrue_eq, anyTrue, List.any_map, Option.some.injEq]
+    congr 1
+    funext p
+    simp only [Function.comp, id]
+    rw [Bool.eq_iff_iff, capPoly_spec_iff]
+    simp
+
+theorem intersects_feature_eq_spec (sameID : Bool) (q : GeoQuery) :
+    intersectsFeatureMatches true sameID q = B6.Spec.SpatialPred.feature sameID q := by
+  simp only [intersectsFeatureMatches, B6.Spec.SpatialPred.feature]
+  congr 1
+  cases q with
+  | point t => exact point_eq_spec t
+  | line t => exact polyline_eq_spec t
+  | mp t => exact multipolygon_eq_spec t
+  | empty => rfl
+
+end B6.Props.C05
